@@ -122,3 +122,56 @@ pub open spec fn div_cost(l0: nat, l1: nat, new_model: bool, base: nat, per_byte
         base + (l0 + l1) * per_byte
     }
 }
+
+// modpow: ASSUMED library specification, the same for both back ends (C06 is stated modulo exactly
+// this): for a non-negative exponent and a non-zero modulus both libraries compute ONE function of
+// the three abstract integer values (its definition, including the sign convention for a negative
+// modulus, is left uninterpreted).  The preconditions are the libraries' panics.
+pub uninterp spec fn modpow_val(b: int, e: int, m: int) -> int;
+
+impl Number {
+    #[verifier::external_body]
+    pub fn modpow(&self, e: &Number, m: &Number) -> (r: Number)
+        requires
+            e.val() >= 0,
+            m.val() != 0,
+        ensures
+            r.val() == modpow_val(self.val(), e.val(), m.val()),
+    {
+        unimplemented!()
+    }
+}
+
+impl Malachite {
+    #[verifier::external_body]
+    pub fn modpow(&self, e: &Malachite, m: &Malachite) -> (r: Malachite)
+        requires
+            e.val() >= 0,
+            m.val() != 0,
+        ensures
+            r.val() == modpow_val(self.val(), e.val(), m.val()),
+    {
+        unimplemented!()
+    }
+}
+
+/// documented cost of modpow before the result allocation (docs/cost-model.md)
+pub open spec fn modpow_cost(b: nat, e: nat, m: nat, new_model: bool) -> nat {
+    if new_model {
+        17000 + (e * 8) * (m * m + 4000) + b * m
+    } else {
+        17000 + b * 38 + (e * e) * 3 + (m * m) * 21
+    }
+}
+
+pub open spec fn modpow_args_ok(items: Seq<Tree>) -> bool {
+    &&& items.len() == 3
+    &&& items[0] is Atom
+    &&& items[1] is Atom
+    &&& items[2] is Atom
+}
+
+/// the pre-hard-fork size limit LIMITS switches on
+pub open spec fn modpow_limits_bad(items: Seq<Tree>, flags: ClvmFlags) -> bool {
+    flags.has(ClvmFlags::LIMITS) && !flags.has(ClvmFlags::NEW_COST_MODEL) && (item_len(items[0]) > 256 || item_len(items[1]) > 256 || item_len(items[2]) > 256)
+}
